@@ -22,6 +22,16 @@ sending IGNORE / DEBUG / CHANNEL_DATA): the tested side must emit KEXINIT at the
 alive while strictly below both allowances (packets and bytes), and must be inactive with an
 SSHException at the latest 20 packets after the first of the two allowances was reached.
 
+stage (both families): "auth" = authenticated session with a channel (all of the above); "preauth" = the
+session is connected (first NEWKEYS done) but NOT authenticated while the program runs: traffic is
+Transport.send_ignore bursts of either side, keepalives, "kx" steps (IGNOREs up to a few packets below the
+packet threshold, then only keepalives: the crossing packet is a keepalive) and failed password attempts
+("authfail"; while the known finding AUTH_FINDING is open an attempt is only started >= 4 packets / 600 bytes
+below the thresholds, so that the crossing packet itself is never part of an auth dialogue - counted as
+excluded by construction; the committed replay runs unguarded). The same oracle applies before
+authentication; afterwards the session is authenticated, a channel is opened and one round trip each way
+must work. "kx" steps are also drawn for the authenticated stage.
+
 Peer bursts in family "coop" are clipped below the overflow allowance (minus the peer's own kex
 packets): paramiko counts the allowance from the moment it *wants* to rekey, so a cooperative peer
 whose traffic already in flight exceeds the allowance is dropped by design (statement: "If the peer
@@ -39,9 +49,10 @@ PROPERTY = "C10"
 LEVEL = "exploration"
 THOROUGH_WORKERS = 16
 RULE = (
-    "hypothesis-drawn (role, cipher/MAC class ctr|cbc|gcm|etm, REKEY_PACKETS 20-200, REKEY_BYTES 4-64 KiB, overflow "
-    "10-100 packets / 2-32 KiB, traffic program of 4-40 steps {data T->P | P->T | both, IGNORE burst, keepalive idle}) for "
-    "the cooperative family; (role, thresholds, trigger direction in|out, packet pattern, 0-1 completed rekeys first) for the "
+    "hypothesis-drawn (role, stage authenticated|connected-but-unauthenticated, cipher/MAC class ctr|cbc|gcm|etm, REKEY_PACKETS 20-200, REKEY_BYTES 4-64 KiB, overflow "
+    "10-100 packets / 2-32 KiB, traffic program of 4-40 steps {data T->P | P->T | both, IGNORE burst, keepalive idle, IGNOREs to just below the "
+    "threshold then keepalives only; before authentication: IGNORE bursts of either side, keepalives, failed password attempts}) for "
+    "the cooperative family; (role, stage, thresholds, trigger direction in|out, packet pattern, 0-1 completed rekeys first) for the "
     "refusing-peer family; non-trivial = >= 2 threshold crossings resolved in one session (counted on the wire), or a "
     "refusing peer; distinct by the case dict"
 )
@@ -210,6 +221,27 @@ CIPHERS = {
 # ----------------------------------------------------------------------------- cooperative family
 
 
+# Known finding: a re-exchange that starts in the middle of a user-auth dialogue kills the session (auth messages are
+# sent with Transport._send_message, i.e. also between KEXINIT and NEWKEYS). While its entry is open, auth dialogues
+# are kept >= 4 packets / 600 bytes away from the thresholds (excluded by construction, counted); the committed replay
+# runs without that guard.
+AUTH_BUCKET = "auth-dialogue-crossing-rekey"
+AUTH_FINDING = "traffic-intact|coop:" + AUTH_BUCKET
+AUTH_EXCLUDED = "auth-dialogue-kept-away-from-threshold"
+AUTH_GUARD = [False]
+
+
+def set_auth_guard():
+    import os
+
+    ent = core.load_known(PROPERTY).get(AUTH_FINDING, {})
+    AUTH_GUARD[0] = ent.get("status") == "open" and not os.environ.get("C10_ASSUME_FIXED")
+
+
+# wire type of the packet that crossed a threshold (evidence classes)
+TYPE_NAMES = {2: "ignore", 80: "keepalive", 82: "keepalive-reply", 94: "data", 93: "window-adjust", 5: "auth", 6: "auth", 50: "auth", 51: "auth", 52: "auth"}
+
+
 def clip_peer_burst(k, size, op, ob):
     k = min(k, op - KEX_MARGIN_PK, (ob - KEX_MARGIN_BY) // (size + 96))
     return max(k, 0)
@@ -219,7 +251,11 @@ def run_coop(case):
     """Execute one cooperative case. Returns dict(viol=[(clause, bucket, detail)], crossings=int, info=...)."""
     from paramiko.packet import Packetizer
 
+    from paramiko.ssh_exception import AuthenticationException, SSHException
+
     role = case["role"]
+    stage = case.get("stage", "auth")
+    guard_auth = case.get("auth_guard", AUTH_GUARD[0])
     rp, rb, op, ob = case["rp"], case["rb"], case["op"], case["ob"]
     cipher, mac = CIPHERS[case["suite"]]
     link = net.Link()
@@ -234,25 +270,42 @@ def run_coop(case):
     viol = []
     threads = []
     stalled = None
+    notes = {}
     try:
         for t in (tc, ts):
             restrict(t, cipher, mac)
             t.clear_to_send_timeout = 2 * WAIT
-        ce, se = peers.start_both(tc, ts, peers.OpenServer())
+        srv = peers.OpenServer()
+        srv.policy["check_auth_password"] = lambda u, p: peers.AUTH_SUCCESSFUL if p == "pw" else peers.AUTH_FAILED
+        ce, se = peers.start_both(tc, ts, srv)
         if ce or se:
             raise core.HarnessError("handshake failed: %r %r" % (ce, se))
-        tc.auth_password("u", "pw")
-        cc = tc.open_session(timeout=WAIT)
-        sc = ts.accept(WAIT)
-        if sc is None:
-            raise core.HarnessError("no channel accepted")
-        chT, chP = (cc, sc) if role == "client" else (sc, cc)
-        for ch in (chT, chP):
-            ch.settimeout(WAIT)
+        chans = {}
+
+        def authenticate():
+            tc.auth_password("u", "pw")
+            cc = tc.open_session(timeout=WAIT)
+            sc = ts.accept(WAIT)
+            if sc is None:
+                raise core.HarnessError("no channel accepted")
+            chans["T"], chans["P"] = (cc, sc) if role == "client" else (sc, cc)
+            for ch in (cc, sc):
+                ch.settimeout(WAIT)
+
+        if stage == "auth":
+            authenticate()
         off = {"T": 0, "P": 0}
+        out_dn, in_dn = ("a->b", "b->a") if role == "client" else ("b->a", "a->b")
+
+        def tails():
+            dec = wire.decode(tc, ts)
+            return tail_counts(dec[out_dn]), tail_counts(dec[in_dn])
+
+        def near_threshold(pk=4, by=600):
+            return any(n + pk >= rp or b + by >= rb for n, b in tails())
 
         def send_data(side, k, size, res):
-            ch = chT if side == "T" else chP
+            ch = chans["T"] if side == "T" else chans["P"]
             tag = 1 if side == "T" else 2
             try:
                 for _ in range(k):
@@ -266,6 +319,7 @@ def run_coop(case):
             tag = 1 if side == "T" else 2
             return b"".join(pattern(tag, start + i * size, size) for i in range(k))
 
+        ka_on = False
         for si, step in enumerate(case["steps"]):
             kind = step[0]
             if kind == "data":
@@ -284,7 +338,7 @@ def run_coop(case):
                     ths.append(th)
                     th.start()
                 for s in plan:
-                    rch = chP if s == "T" else chT
+                    rch = chans["P"] if s == "T" else chans["T"]
                     want = expect(s, plan[s][0], size, plan[s][1])
                     got = recv_exact(rch, len(want))
                     if got != want:
@@ -317,21 +371,88 @@ def run_coop(case):
                 # keepalive-driven traffic while both applications are idle
                 _, interval_ms, dur_ms = step
                 T.set_keepalive(interval_ms / 1000.0)
+                ka_on = True  # stays enabled until the step has settled (a real application never switches it off)
                 time.sleep(dur_ms / 1000.0)
-                T.set_keepalive(0)
+            elif kind == "kx":
+                # IGNOREs up to `gap` packets below the packet threshold, then nothing but keepalives: the
+                # threshold is crossed by a keepalive (sent from the transport thread's idle poll)
+                _, gap, interval_ms = step
+                (n_o, b_o), _in = tails()
+                out_dir = link.ab if role == "client" else link.ba
+                guard = 0
+                try:
+                    while n_o + gap < rp and b_o + 200 < rb and guard < rp:
+                        before = len(out_dir.sent)
+                        T.send_ignore(8)
+                        guard += 1
+                        n_o += 1
+                        b_o += len(out_dir.sent[before])
+                except Exception as e:
+                    viol.append(("traffic-intact", "send-failed", "step %d %r: %r" % (si, step, e)))
+                if not viol and settle(link, T, P) == "ok":
+                    k0 = len(link.ab.sent if role == "client" else link.ba.sent)
+                    T.set_keepalive(interval_ms / 1000.0)
+                    end = time.time() + 0.4 + 0.25 * gap
+                    ka_on = True
+                    while time.time() < end and len(link.ab.sent if role == "client" else link.ba.sent) < k0 + gap + 1:
+                        time.sleep(0.01)
+            elif kind == "authfail":
+                # failed password attempts (while AUTH_FINDING is open they only add to the counters: never the crossing packet)
+                for _ in range(step[1]):
+                    if guard_auth and near_threshold():
+                        notes[AUTH_EXCLUDED] = notes.get(AUTH_EXCLUDED, 0) + 1
+                        break
+                    err = None
+                    try:
+                        tc.auth_password("u", "wrong")
+                        raise core.HarnessError("wrong password accepted")
+                    except AuthenticationException as e:
+                        notes["authfail"] = notes.get("authfail", 0) + 1
+                        if not (tc.is_active() and ts.is_active()):
+                            err = e
+                    except (SSHException, EOFError) as e:
+                        err = e
+                    if err is not None:
+                        viol.append(("traffic-intact", AUTH_BUCKET, "step %d %r: password attempt ended with %r; active(T,P)=%r exceptions=%r" % (si, step, err, (T.is_active(), P.is_active()), (T.get_exception(), P.get_exception()))))
+                        break
             if viol:
                 break
             st_ = settle(link, T, P)
+            if ka_on:
+                T.set_keepalive(0)
+                ka_on = False
+                if st_ == "ok":
+                    st_ = settle(link, T, P)
             if st_ != "ok":
                 stalled = "after step %d %r: %s" % (si, step, st_)
                 break
+        if stage != "auth" and not viol and stalled is None:
+            # authentication must still work; its packets are kept away from a crossing like "authfail"
+            guard = 0
+            while guard_auth and near_threshold(pk=6, by=1200) and guard < 40:
+                (n_o, b_o), (n_i, b_i) = tails()
+                if n_o + 6 >= rp or b_o + 1200 >= rb:
+                    T.send_ignore(64)
+                if n_i + 6 >= rp or b_i + 1200 >= rb:
+                    P.send_ignore(64)
+                guard += 1
+                if settle(link, T, P) != "ok":
+                    stalled = "before authentication"
+                    break
+            if stalled is None:
+                try:
+                    authenticate()
+                except (SSHException, EOFError) as e:
+                    viol.append(("traffic-intact", AUTH_BUCKET, "authentication / first channel after the program ended with %r; active(T,P)=%r exceptions=%r" % (e, (T.is_active(), P.is_active()), (T.get_exception(), P.get_exception()))))
+                if not viol and settle(link, T, P) != "ok":
+                    stalled = "after authentication"
         # final liveness probe: one more round trip each way
         if not viol and stalled is None:
             for s in ("T", "P"):
                 res = {}
                 start = off[s]
                 send_data(s, 1, 32, res)
-                got = recv_exact(chP if s == "T" else chT, 32)
+                got = recv_exact(chans["P"] if s == "T" else chans["T"], 32)
                 if got != expect(s, 1, 32, start):
                     viol.append(("traffic-intact", "final-roundtrip", "direction %s: %r / %s" % (s, got[:8], res.get(s))))
             if settle(link, T, P) != "ok":
@@ -353,6 +474,7 @@ def run_coop(case):
     pk_out, pk_in = dec[out_name], dec[in_name]
     crossings = []
     unresolved = []
+    xtypes = set()
     for name, pk in (("out", pk_out), ("in", pk_in)):
         cnt = {}
         for g, ep, seq, ty, pl, ln in pk:
@@ -362,6 +484,7 @@ def run_coop(case):
             if c[2] is None and (c[0] >= rp or c[1] >= rb):
                 c[2] = g
                 crossings.append((name, ep, g, "packets" if c[0] >= rp else "bytes"))
+                xtypes.add("%s:%s" % (name, TYPE_NAMES.get(ty, "other")))
         ended = set(ep for g, ep, seq, ty, pl, ln in pk if ty == 21)
         for ep, c in sorted(cnt.items()):
             if c[2] is not None and ep not in ended:
@@ -404,14 +527,21 @@ def run_coop(case):
         )
     elif stalled is not None:
         viol.append(("traffic-intact", "stalled", stalled))
-    return dict(viol=viol, crossings=len(crossings) - len(unresolved), rekeys=max(0, len(nk_out) - 1), kinds=sorted(set(c[0] + ":" + c[3] for c in crossings)))
+    return dict(
+        viol=viol,
+        crossings=len(crossings) - len(unresolved),
+        rekeys=max(0, len(nk_out) - 1),
+        kinds=sorted(set(c[0] + ":" + c[3] for c in crossings)),
+        xtypes=sorted(xtypes),
+        notes=notes,
+    )
 
 
 # ----------------------------------------------------------------------------- refusing family
 
 
 def puppet_packet(kind, size, chan_id, n):
-    if kind == "ign":
+    if kind == "ign" or (kind == "data" and chan_id is None):  # no channel before authentication
         return peers.m_ignore(pattern(3, n, size))
     if kind == "dbg":
         return peers.m_debug(pattern(4, n, size))
@@ -446,13 +576,15 @@ def run_refuse(case):
         ce, se = peers.start_both(tc, ts, peers.OpenServer())
         if ce or se:
             raise core.HarnessError("handshake failed: %r %r" % (ce, se))
-        tc.auth_password("u", "pw")
-        cc = tc.open_session(timeout=WAIT)
-        sc = ts.accept(WAIT)
-        if sc is None:
-            raise core.HarnessError("no channel accepted")
-        chT = cc if role == "client" else sc
-        t_id = chT.get_id()
+        t_id = None
+        if case.get("stage", "auth") == "auth":
+            tc.auth_password("u", "pw")
+            cc = tc.open_session(timeout=WAIT)
+            sc = ts.accept(WAIT)
+            if sc is None:
+                raise core.HarnessError("no channel accepted")
+            chT = cc if role == "client" else sc
+            t_id = chT.get_id()
         P.raw()
         if not link.wait_quiescent(WAIT):
             raise core.HarnessError("link not quiescent after setup")
@@ -621,10 +753,17 @@ def check_case(ctx, case, record=True):
     if record:
         if case["family"] == "coop":
             nt = r.get("crossings", 0) >= 2
+            stage = case.get("stage", "auth")
             cls = ["coop", "role:" + case["role"], "suite:" + case["suite"], "crossings:%d" % min(r.get("crossings", 0), 6)] + ["by:" + k for k in r.get("kinds", [])]
+            cls += ["stage:" + stage, "coop:%s:%s" % (stage, case["role"])] + ["crossed-by:%s:%s" % (stage, x) for x in r.get("xtypes", [])]
+            cls += ["coop:%s:crossings>=1" % stage] if r.get("crossings", 0) >= 1 else []
+            cls += ["note:" + k for k in r.get("notes", {})]
+            if r.get("notes", {}).get(AUTH_EXCLUDED):
+                ctx.exclude(AUTH_EXCLUDED + " (open finding %s)" % AUTH_FINDING, r["notes"][AUTH_EXCLUDED])
         else:
             nt = True
-            cls = ["refuse", "role:" + case["role"], "suite:" + case["suite"], "trigger:" + case["trigger"], "pre:%d" % case["pre"]]
+            stage = case.get("stage", "auth")
+            cls = ["refuse", "role:" + case["role"], "suite:" + case["suite"], "trigger:" + case["trigger"], "pre:%d" % case["pre"], "stage:" + stage, "refuse:%s:%s" % (stage, case["trigger"])]
         ctx.case(case, nt, cls)
     if r["viol"]:
         clause, bucket, detail = r["viol"][0]
@@ -652,10 +791,24 @@ def coop_cases(draw):
         st.tuples(st.just("ign"), st.sampled_from(["T", "T", "P"]), ks, st.integers(1, 400)),
         st.tuples(st.just("ka"), st.sampled_from([20, 50]), st.sampled_from([250, 400])),
     )
-    steps = draw(st.lists(step, min_size=4, max_size=40))
+    kx = st.tuples(st.just("kx"), st.integers(1, 3), st.sampled_from([20, 50]))
+    stage = draw(st.sampled_from(["auth", "auth", "preauth"]))
+    if stage == "preauth":
+        step = st.one_of(
+            st.tuples(st.just("ign"), st.sampled_from(["T", "T", "P"]), ks, st.integers(1, 400)),
+            st.tuples(st.just("ign"), st.sampled_from(["T", "P", "P"]), ks, st.sampled_from([1, 16, 100])),
+            st.tuples(st.just("ka"), st.sampled_from([20, 50]), st.sampled_from([250, 400])),
+            kx,
+            st.tuples(st.just("authfail"), st.integers(1, 3)),
+        )
+    else:
+        step = st.one_of(step, step.map(lambda v: v), step.map(lambda v: tuple(v)), kx)
+    steps = draw(st.lists(step, min_size=4, max_size=16 if stage == "preauth" else 40))
     # keep keepalive idles rare (real time), the total volume bounded, and every step below the
     # 200 KiB window-adjust threshold (at most one WINDOW_ADJUST per step from the receiver)
     kas = 0
+    kxs = 0
+    fails = 0
     out = []
     vol = 0
     cap = 8 * rb + 8 * rp * 64
@@ -665,6 +818,17 @@ def coop_cases(draw):
             kas += 1
             if kas > 1:
                 continue
+        elif s[0] == "kx":
+            kxs += 1
+            if kxs > 2:
+                continue
+            vol += rp * 64
+        elif s[0] == "authfail":
+            # the server ends the session after 10 failed attempts
+            s[1] = min(s[1], 8 - fails)
+            if s[1] <= 0:
+                continue
+            fails += s[1]
         else:
             per = s[3] + 64
             s[2] = min(s[2], (cap - vol) // per, 150000 // per)
@@ -675,6 +839,7 @@ def coop_cases(draw):
     return dict(
         family="coop",
         role=draw(st.sampled_from(["client", "server"])),
+        stage=stage,
         suite=draw(st.sampled_from(sorted(CIPHERS))),
         rp=rp,
         rb=rb,
@@ -687,10 +852,12 @@ def coop_cases(draw):
 @st.composite
 def refuse_cases(draw):
     rp, rb, op, ob = draw(thresholds())
-    pk = st.tuples(st.sampled_from(["ign", "dbg", "data"]), st.one_of(st.sampled_from([0, 1, 32]), st.integers(0, 900)))
+    stage = draw(st.sampled_from(["auth", "auth", "preauth"]))
+    pk = st.tuples(st.sampled_from(["ign", "dbg", "data"] if stage == "auth" else ["ign", "dbg"]), st.one_of(st.sampled_from([0, 1, 32]), st.integers(0, 900)))
     return dict(
         family="refuse",
         role=draw(st.sampled_from(["client", "server"])),
+        stage=stage,
         suite=draw(st.sampled_from(sorted(CIPHERS))),
         rp=rp,
         rb=rb,
@@ -711,11 +878,18 @@ FIXED = [
     dict(family="coop", role="client", suite="gcm", rp=30, rb=8192, op=40, ob=16384, steps=[["data", "B", 12, 200]] * 6 + [["data", "P", 20, 1]] * 4),
     dict(family="refuse", role="client", suite="ctr", rp=20, rb=65536, op=10, ob=32768, trigger="in", pre=1, tsize=10, pattern=[["ign", 8]]),
     dict(family="refuse", role="server", suite="cbc", rp=200, rb=4096, op=100, ob=2048, trigger="out", pre=0, tsize=200, pattern=[["data", 100], ["dbg", 5]]),
+    # connected but not authenticated: send-heavy, receive-heavy, keepalive crossing, a long auth dialogue; refusing peer
+    dict(family="coop", role="client", stage="preauth", suite="ctr", rp=24, rb=65536, op=40, ob=16384, steps=[["ign", "T", 30, 10], ["authfail", 3], ["ign", "P", 20, 16], ["kx", 2, 20]]),
+    dict(family="coop", role="server", stage="preauth", suite="gcm", rp=30, rb=6000, op=40, ob=16384, steps=[["ign", "P", 25, 100], ["ign", "P", 25, 100], ["authfail", 2], ["ign", "T", 40, 200], ["kx", 1, 50]]),
+    dict(family="refuse", role="server", stage="preauth", suite="etm", rp=20, rb=65536, op=12, ob=32768, trigger="in", pre=1, tsize=10, pattern=[["ign", 8], ["dbg", 40]]),
+    dict(family="refuse", role="client", stage="preauth", suite="ctr", rp=40, rb=8192, op=30, ob=4096, trigger="out", pre=0, tsize=100, pattern=[["ign", 300]]),
+    dict(family="coop", role="client", suite="cbc", rp=40, rb=65536, op=40, ob=16384, steps=[["kx", 2, 20], ["data", "T", 3, 100], ["kx", 1, 50]]),
 ]
 
 
 def run(ctx):
     ctx.set_budget(75, 840)
+    set_auth_guard()
     ctx.assume("cooperative peer bursts are clipped below the overflow allowance (paramiko counts the allowance from the moment it wants to rekey, not from the peer seeing KEXINIT)")
     ctx.assume("timing: an unanswered threshold is reported only after %.0f s (120x the 0.1 s poll) and 3 consecutive runs" % WAIT)
     if ctx.worker == 0:
@@ -730,4 +904,5 @@ def run(ctx):
 
 
 def replay(ctx, case):
+    set_auth_guard()
     check_case(ctx, case, record=False)
